@@ -74,6 +74,7 @@ func c03HelperOne(run *h.Run, api *w.API, seq []int, cfg c03Config, now time.Tim
 		Spec: v1.ExtendedDaemonSetReplicaSetSpec{Template: eds.Spec.Template, TemplateGeneration: hash}}
 	rs.Status.Conditions = []v1.ExtendedDaemonSetReplicaSetCondition{{Type: v1.ConditionTypeActive, Status: corev1.ConditionTrue,
 		LastTransitionTime: metav1.NewTime(now.Add(-time.Hour)), LastUpdateTime: metav1.NewTime(now.Add(-time.Hour))}}
+	rs.Status.Desired = int32(max(0, len(seq)+cfg.stale))
 	params := &strategy.Parameters{EDSName: "foo", Strategy: &eds.Spec.Strategy, Replicaset: rs, ReplicaSetStatus: "active",
 		NewStatus: rs.Status.DeepCopy(), Logger: logr.Discard(),
 		NodeByName: map[string]*strategy.NodeItem{}, PodByNodeName: map[*strategy.NodeItem]*corev1.Pod{}}
@@ -101,7 +102,7 @@ func c03HelperOne(run *h.Run, api *w.API, seq []int, cfg c03Config, now time.Tim
 	mf := resolveStr(cfg.mpsf, len(seq))
 	if sig, msg := c03Oracle(seq, deleted, mu, mf); sig != "" {
 		run.Violate(h.Violation{Signature: sig, Monitor: "C03/helper", Message: msg, Rank: int64(len(seq)),
-			Replay: map[string]interface{}{"level": "ManageDeployment", "classes": c03Names(seq), "maxUnavailable": cfg.mu, "maxPodSchedulerFailure": cfg.mpsf, "deleted": deleted}})
+			Replay: map[string]interface{}{"level": "ManageDeployment", "classes": c03Names(seq), "maxUnavailable": cfg.mu, "maxPodSchedulerFailure": cfg.mpsf, "stored_status_desired_offset": cfg.stale, "deleted": deleted}})
 	}
 	if len(res.PodsToDelete) > 0 {
 		run.Nontrivial(fmt.Sprintf("helper:n=%d del=%d mu=%s", len(seq), len(res.PodsToDelete), cfg.mu))
